@@ -6,7 +6,7 @@
    Cadence (Proofs/SearchCadence.v): the node counter only moves by +1 right after a poll test at the same count, in negamax and in
    quiescence, so every multiple of 16,384 below the final count was polled (C09_polls_every_16384_nodes). *)
 From Coq Require Import NArith ZArith List Bool.
-From JV Require Import Gen.Consts Model.Chess Model.Eval Model.TT Model.Search Model.SearchChess Proofs.SearchFrame Proofs.SearchCadence.
+From JV Require Import Gen.Consts Model.Chess Model.Eval Model.TT Model.Search Model.SearchChess Proofs.SearchFrame Proofs.SearchCadence Proofs.SearchPrompt.
 
 Theorem C09_frame : forall pollp stop_at bypass g depth t rt ri,
   match chess_search pollp stop_at bypass g depth t rt ri with
@@ -51,7 +51,19 @@ Proof.
   rewrite N.mul_comm. apply N.mod_mul. discriminate.
 Qed.
 
+(* bounded work after the stop: in the trace of every search, at most 2 * MAX_PLY^2 = 8192 nodes of the main search are entered while
+   the stop flag is set (a node entered with the flag set searches at most one child and returns; a frame whose child saw the stop
+   finishes at most two further searches of that same move).  Quiescence nodes are not counted: quiescence never tests the flag. *)
+Definition entered_while_stopping (ev : event game move) : bool := match ev with ENode false _ _ _ _ _ _ true _ _ => true | _ => false end.
+Theorem C09_bounded_work_after_stop : forall pollp stop_at bypass g depth t rt ri,
+  match chess_search pollp stop_at bypass g depth t rt ri with
+  | SDone _ e _ => (length (filter entered_while_stopping (trace e)) <= 2 * 64 * 64)%nat
+  | SFuel => True
+  end.
+Proof. intros. apply search_prompt. Qed.
+
 Print Assumptions C09_frame.
 Print Assumptions C09_frame_per_call.
 Print Assumptions C09_cadence.
 Print Assumptions C09_polls_every_16384_nodes.
+Print Assumptions C09_bounded_work_after_stop.
